@@ -806,6 +806,10 @@ impl<'a> Interp<'a> {
             self.log.push(Ev::Out(args[0].snapshot()));
             return Ok(V::Unit);
         }
+        if name.starts_with("ov_") {
+            self.log.push(Ev::Out(args[0].snapshot()));
+            return Ok(V::i32(0));
+        }
         match name {
             "e" => {
                 let r = args[0].clone();
